@@ -60,6 +60,11 @@ def worker_chunk(args):
     mod, kw = _load(prop)
     out = []
     for seed in seeds:
+        if os.environ.get("GTSIM_TEST_KILL") == str(seed):  # self-test of the pool-restart path only
+            flag = os.environ.get("GTSIM_TEST_KILL_FLAG", "/tmp/gtsim_kill_flag")
+            if os.environ.get("GTSIM_TEST_KILL_ALWAYS") or not os.path.exists(flag):
+                open(flag, "w").close()
+                os._exit(1)
         faulthandler.dump_traceback_later(PER_RUN_TIMEOUT, exit=True)
         try:
             r = mod.run(seed, tier, **kw)
@@ -154,25 +159,43 @@ def run_check(prop, tier="quick", base_seed=0, runs=None, workers=None, wall=Non
     print(f"gtsim: property={prop} tier={tier} VERIF_SEED={base_seed} runs={n} workers={workers} tree={rt.tree_under_test()}", file=out, flush=True)
     ex = cf.ProcessPoolExecutor(max_workers=workers, mp_context=ctx, initializer=_worker_init)
     try:
-        futs = [ex.submit(worker_chunk, (prop, tier, c)) for c in chunks]
-        pending = set(futs)
-        while pending:
-            left = wall - (time.time() - t0)
-            if left <= 0:
-                raise Budget()
-            done, pending = cf.wait(pending, timeout=min(left, 30), return_when=cf.FIRST_COMPLETED)
-            for f in done:
-                for r in f.result():
-                    agg.add(r)
-                    if r.get("harness_error"):
-                        print("HARNESS-ERROR seed=%d\n%s" % (r["seed"], r["harness_error"]), file=out, flush=True)
-                        status = 2
-                    elif not r["ok"]:
-                        violations.append(r["violation"])
-            if len(violations) >= int(os.environ.get("GTSIM_MAXVIOL", "40")) or status == 2:
-                for p in pending:
-                    p.cancel()
+        remaining = set(range(len(chunks)))
+        pool_restarts = 0
+        while remaining:
+            try:
+                fut_idx = {ex.submit(worker_chunk, (prop, tier, chunks[i])): i for i in sorted(remaining)}
+                pending = set(fut_idx)
+                stop = False
+                while pending and not stop:
+                    left = wall - (time.time() - t0)
+                    if left <= 0:
+                        raise Budget()
+                    done, pending = cf.wait(pending, timeout=min(left, 30), return_when=cf.FIRST_COMPLETED)
+                    for f in done:
+                        res = f.result()
+                        remaining.discard(fut_idx[f])
+                        for r in res:
+                            agg.add(r)
+                            if r.get("harness_error"):
+                                print("HARNESS-ERROR seed=%d\n%s" % (r["seed"], r["harness_error"]), file=out, flush=True)
+                                status = 2
+                            elif not r["ok"]:
+                                violations.append(r["violation"])
+                    if len(violations) >= int(os.environ.get("GTSIM_MAXVIOL", "40")) or status == 2:
+                        for p in pending:
+                            p.cancel()
+                        stop = True
                 break
+            except cf.process.BrokenProcessPool:
+                # a worker died (per-run watchdog, OOM kill, ...): restart the pool ONCE for the unfinished
+                # seeds; a second death is reported as a harness error (never as "held")
+                pool_restarts += 1
+                if pool_restarts > 1:
+                    raise
+                print(f"NOTE: a worker process died; restarting the pool once for {len(remaining)} unfinished chunks", file=out, flush=True)
+                ex.shutdown(wait=False, cancel_futures=True)
+                ex = cf.ProcessPoolExecutor(max_workers=workers, mp_context=ctx, initializer=_worker_init)
+        agg.extra["pool_restarts"] += pool_restarts
         # ---- violations: one per class, minimised, replay-verified
         if violations and status != 2:
             classes = collections.OrderedDict()
